@@ -65,6 +65,8 @@ func readSnap(ss moss.Snapshot) (s string) {
 // readIterRest: what an open iterator shows - everything from the start of its range, read by
 // seeking back to the smallest key (the iterator re-creates its cursors from its snapshot's
 // stack) and scanning to the end.
+var farSeekToggle int
+
 func readIterRest(it moss.Iterator) (s string) {
 	defer debug.SetPanicOnFault(debug.SetPanicOnFault(true))
 	defer func() {
@@ -73,6 +75,22 @@ func readIterRest(it moss.Iterator) (s string) {
 		}
 	}()
 	var sb strings.Builder
+	farSeekToggle++
+	if farSeekToggle%2 == 0 {
+		// every other time: first a seek far ahead, past every key of every level, without naive
+		// steps - the iterator re-creates its cursors and the new ones have no lower-level iterator
+		// (what becomes of the old one is the reference monitor's business); then back to the start
+		// (from the start of the range, where the lower-level iterator is still alive: an iterator that
+		// was scanned to its end has closed it already)
+		it.SeekTo([]byte{})
+		old := moss.DefaultNaiveSeekToMaxTries
+		moss.DefaultNaiveSeekToMaxTries = 0
+		e := it.SeekTo([]byte{0xff, 0xff, 0xff, 0xff})
+		moss.DefaultNaiveSeekToMaxTries = old
+		if e != nil && e != moss.ErrIteratorDone {
+			fmt.Fprintf(&sb, "<far seek: %v>", e)
+		}
+	}
 	err := it.SeekTo([]byte{})
 	for n := 0; err == nil && n < 10000; n++ {
 		k, v, e := it.Current()
